@@ -154,6 +154,17 @@ func solveAll(units []*UnitResult, cfg solveConfig) {
 }
 
 func solveOne(d *Decls, o *Obligation, avail []solverSpec, cfg solveConfig) {
+	if o.Kind == "det" {
+		// syntactic schema recognition (DESIGN.md 2.7): no SMT query
+		o.Solver = "syntactic"
+		if o.Goal == "true" {
+			o.Result = "unsat"
+		} else {
+			o.Result = "unknown"
+		}
+		o.Text = "; syntactic determinism schema check: " + o.Note
+		return
+	}
 	text := smtText(d, o, true)
 	o.Text = text
 	if cfg.dumpDir != "" {
